@@ -145,7 +145,8 @@ class C08(Check):
             L.append(('one-col-4', 'one column, exactly 4 rows (numeric, '
                                    'boolean, datetime: full alphabets; TEXT: '
                                    'reduced alphabet)'))
-            L.append(('two-col-3', 'two columns, exactly 3 rows'))
+            L.append(('two-col-3', 'two columns (c, my col), exactly 3 '
+                                   'rows'))
         return L
 
     def cases(self, tier, layer):
@@ -169,8 +170,9 @@ class C08(Check):
                             yield {'cols': [[name, decl]],
                                    'rows': [[v] for v in col], 'rex': rex}
         elif layer in ('two-col', 'two-col-3'):
-            pairs = NAMEPAIRS_T if thorough and layer == 'two-col' \
-                else NAMEPAIRS_Q
+            pairs = NAMEPAIRS_T if thorough else NAMEPAIRS_Q
+            if layer == 'two-col-3':
+                pairs = NAMEPAIRS_Q[:1]
             rng = (3,) if layer == 'two-col-3' else (0, 1, 2)
             for da in DECLS:
                 for db_ in DECLS:
